@@ -341,7 +341,10 @@ Proof. intros r p tol Hp Htol. apply iso_profiles_nest_xy; assumption. Qed.
 
 
 (* ------------------------------------------------------------------ the outlines of Sdf/Screw.v at ROps *)
-From Sdfx Require Import Num.Ops Num.RInst Geo.Vec Sdf.Screw.
+From Sdfx Require Import Num.Ops.
+From Sdfx Require Import Num.RInst.
+From Sdfx Require Import Geo.Vec.
+From Sdfx Require Import Sdf.Screw.
 
 Lemma ext_outline_R r p : @iso_ext_outline ROps r p = iso_ext_chain r p.
 Proof.
